@@ -157,6 +157,15 @@ impl Ctx {
             stale.push((r2, "dead, index reused"));
             // u[3] has a deferred deletion pending (still alive)
             w.entities().delete(live[&u[3]]).unwrap();
+            // u[4]: deleted, its index taken by an entity created through the shared resource,
+            // and that one deleted immediately (before any maintain): nobody lives there now
+            let r3 = live.remove(&u[4]).unwrap();
+            w.delete_entity(r3).unwrap();
+            let n3 = w.entities().create();
+            assert_eq!(n3.id(), u[4]);
+            w.delete_entity(n3).unwrap();
+            stale.push((r3, "dead, index reused and freed again"));
+            stale.push((n3, "dead, deleted while still awaiting maintain"));
         }
         let l: Vec<u32> = live.keys().copied().collect();
         Ctx { w, live, stale, l, u: u.to_vec() }
